@@ -1127,11 +1127,7 @@ class Curve(BaseCurve):
         fitfunc = heavy.LeastSquare.fit_function
         if nodes is None:
             umin, umax = self.knotvector.limits
-            if isinstance(umin, (int, Fraction)):
-                funcnodes = heavy.NodeSample.closed_linspace
-            else:
-                funcnodes = heavy.NodeSample.chebyshev
-            nodes_0to1 = funcnodes(len(points))
+            nodes_0to1 = heavy.NodeSample.closed_linspace(len(points))
             nodes = tuple(umin + (umax - umin) * node for node in nodes_0to1)
         knotvector = tuple(self.knotvector)
         nodes = tuple(nodes)
